@@ -159,33 +159,24 @@ def gfortran_sample(ctx, rendered, every=10):
 
 
 def gfortran_two_names_quirk(rendered, err):
-    """gfortran 12 mishandles an entity that is use-associated under two local names in one scope (legal: F2018 14.2.2): it
-    reports one of the names as untyped.  True if every error of `err` is of that kind and names such an entity."""
+    """gfortran 12 mishandles an entity that is use-associated under two local names in one scope (legal: F2018 14.2.2,
+    e.g. 'use b, only: rho => t' + 'use a' with b re-exporting a's t): depending on the statement that uses the entity it
+    reports "Symbol 't' has no IMPLICIT type", "has not been previously defined", "Derived type 't' is being used before it
+    is defined", "Function 'f' has no IMPLICIT type" or just "Syntax error in CALL statement" (all reproduced with
+    hand-written minimal programs), and whatever follows is a consequence.  True if the *first* error names such an entity
+    in its message or in the source line it quotes."""
     import re
 
     prog = getattr(rendered, "prog", None)
     names = {n.lower() for n in (prog.stats.get("double_name_set") or ())} if prog is not None else set()
     if not names:
         return False
-    errs = re.findall(r"^(?:Fatal )?Error: (.*)$", err, re.M)
-    if not errs:
+    # gfortran prints:  file:line:col: / blank / "  97 |  source line" / "     |   1" / "Error: message"
+    m = re.search(r"^\s*\d+ \|(.*)\n[^\n]*\n(?:Fatal )?Error: (.*)$", err, re.M)
+    if not m:
         return False
-    quirk = re.compile(r"(?:Symbol|Function|Derived type) .(\w+). at \(1\) (?:has no IMPLICIT type|has not been previously defined|is being used before it is defined)")
-    # 'use b, only: rho => t' + 'use a' + 'type, extends(t) :: u': "Symbol 't' has not been previously defined", after
-    # which gfortran no longer knows where it is (Expecting END MODULE, statements "in CONTAINS section", ...)
-    first = quirk.match(errs[0])
-    if not (first and first.group(1).lower() in names):
-        return False
-    if "has not been previously defined" in errs[0] or "is being used before it is defined" in errs[0]:
-        return True  # everything after a failed type definition / declaration is a consequence
-    for e in errs:
-        m = quirk.match(e)
-        if m and m.group(1).lower() in names:
-            continue
-        if e.startswith("Cannot open module file"):
-            continue  # consequence: the module with the error produced no .mod
-        return False
-    return True
+    words = {w.lower() for w in re.findall(r"[A-Za-z_]\w*", m.group(1) + " " + m.group(2))}
+    return bool(words & names)
 
 
 def reachable_ignoring_accessibility(module_scope, ent, seen=None):
